@@ -1778,6 +1778,7 @@ fn scalar_to_string(
 fn escape_scalar_string(value: &[u8], start: usize, end: usize, json: &mut String) {
     json.push('\"');
     let mut last_start = start;
+    let mut unicode_escape = [b'\\', b'u', b'0', b'0', 0, 0];
     for i in start..end {
         // add backslash for escaped characters.
         let c = match value[i] {
@@ -1788,6 +1789,13 @@ fn escape_scalar_string(value: &[u8], start: usize, end: usize, json: &mut Strin
             0x0A => "\\n",
             0x0D => "\\r",
             0x09 => "\\t",
+            // other control characters must be escaped too
+            b @ 0x00..=0x1F => {
+                const HEX_DIGITS: &[u8; 16] = b"0123456789abcdef";
+                unicode_escape[4] = HEX_DIGITS[(b >> 4) as usize];
+                unicode_escape[5] = HEX_DIGITS[(b & 0x0F) as usize];
+                from_utf8(&unicode_escape).unwrap()
+            }
             _ => {
                 continue;
             }
